@@ -18,6 +18,8 @@ NOT decided: key generation loops on real sizes (FIPS 186-4 margins), probabilis
 factor recovery from (n, e, d), on-curve tests of the C code (abstract), imports (C13 decides their
 totality; the imported components go through the same constructors).
 """
+import operator
+
 from vlib.env import Harness
 
 NB = {'P-192': 24, 'P-224': 28, 'P-256': 32, 'P-384': 48, 'P-521': 66, 'Curve25519': 32, 'Curve448': 56, 'Ed25519': 32, 'Ed448': 57}
@@ -210,10 +212,27 @@ def _small_int_shims(env):
     old_bool = IntegerNative.__bool__
     IntegerNative.__bool__ = lambda self: bool(self._value != 0)
     IntegerNative.__nonzero__ = IntegerNative.__bool__
+    old_int = IntegerNative.__int__
+    # implicit C-level conversions (e.g. '%d' % Integer in an error message) need a real int: solver-enumerated
+    IntegerNative.__int__ = lambda self: operator.index(self._value) if isinstance(self._value, core.SymInt) else old_int(self)
 
     def hook(b, e, m):
+        b, e, m = [getattr(t, '_value', t) for t in (b, e, m)]
         if m is None:
             raise core.Inconclusive("symbolic pow without modulus")
+        if isinstance(e, int) and e < 0:
+            # builtin pow(b, -k, m): modular inverse (ValueError when b is not invertible), then the k-th power
+            mw = m.bit_length() if isinstance(m, int) else m.w
+            if mw > 8:
+                raise core.Inconclusive("modular inverse by table only up to 8 bits")
+            bm = b % m
+            exists = env.Or(*[env.And(x < m, (bm * x) % m == 1 % m) for x in range(1 << mw)])
+            if not exists:
+                raise ValueError("base is not invertible for the given modulus")
+            inv = 0
+            for x in range((1 << mw) - 1, -1, -1):
+                inv = env.ite(env.And(x < m, (bm * x) % m == 1 % m), x, inv)
+            return hook(inv, -e, m)
         if isinstance(e, int):
             ebits = max(e.bit_length(), 1)
         else:
@@ -229,6 +248,7 @@ def _small_int_shims(env):
     def undo():
         IntegerNative.__bool__ = old_bool
         IntegerNative.__nonzero__ = old_bool
+        IntegerNative.__int__ = old_int
         natives.POW_HOOK = None
     return undo
 
